@@ -81,7 +81,9 @@ def main():
     ctx.escalated = bool(br.source_changed)
     ctx.runner = getattr(mod, 'RUNNER', common.DEFAULT_RUNNER)
     ctx.model_available = br.model_ok
-    # 3+4: correspondence + oracle
+    # 3+4: correspondence + oracle (with line coverage of the anchored source files)
+    cov = common.LineCoverage(pid)
+    cov.start()
     run_error = None
     try:
         mod.run(ctx)
@@ -96,6 +98,7 @@ def main():
     except Exception:
         run_error = traceback.format_exc()
 
+    cov.stop()
     known = [k for k in common.load_known() if k.get('property') == pid]
     known_sigs = {k['signature']: k for k in known if k.get('status') == 'known'}
 
@@ -193,6 +196,7 @@ def main():
             'build_wall_s': round(br.wall, 2),
             'known_findings_reproduced': [s for s, _ in known_lines],
             'notes': ctx.notes,
+            'anchored_source_line_coverage': cov.report(),
         },
         'assumptions': getattr(mod, 'ASSUMPTIONS', []),
         'wall_s': round(wall, 2),
